@@ -89,8 +89,8 @@ def RecT(name):
     return T("rec", name)
 
 
-def SeqT(elem):
-    return T("seq", elem)
+def SeqT(elem, **kw):
+    return T("seq", elem, **kw)
 
 
 def TupleT(*elems):
@@ -183,6 +183,9 @@ class ClassInfo:
     def __init__(self, name, node, fields, file, src):
         self.name, self.node, self.fields, self.file, self.src = name, node, fields, file, src
         self.methods, self.props, self.aliases, self.classmethods, self.staticmethods = {}, {}, {}, set(), set()
+        self.class_attrs = {}
+        self.bases = [b.id if isinstance(b, ast.Name) else (b.attr if isinstance(b, ast.Attribute) else "") for b in node.bases]
+        self.is_namedtuple = "NamedTuple" in self.bases
         for n in node.body:
             if isinstance(n, ast.FunctionDef):
                 decos = [d.id if isinstance(d, ast.Name) else (d.attr if isinstance(d, ast.Attribute) else "") for d in n.decorator_list]
@@ -199,6 +202,10 @@ class ClassInfo:
             elif isinstance(n, ast.Assign) and len(n.targets) == 1 and isinstance(n.targets[0], ast.Name) \
                     and isinstance(n.value, ast.Name):
                 self.aliases[n.targets[0].id] = n.value.id
+            elif isinstance(n, ast.Assign) and len(n.targets) == 1 and isinstance(n.targets[0], ast.Name):
+                self.class_attrs[n.targets[0].id] = n.value
+            elif isinstance(n, ast.AnnAssign) and isinstance(n.target, ast.Name) and n.value is not None:
+                self.class_attrs[n.target.id] = n.value
         for a, b in self.aliases.items():
             if b in self.methods:
                 self.methods[a] = self.methods[b]
@@ -393,6 +400,7 @@ class Ctx:
         self.solver_time = 0.0
         self.ghost = {}
         self.float_ops = []        # float-producing operations seen on this path (exact_integer contracts flag them)
+        self.havocked = False      # a loop cut / modular call replaced state by arbitrary values on this path
 
     def fresh_name(self, base):
         return f"{base}!{next(self.counter)}"
@@ -523,7 +531,8 @@ def fresh(ctx: Ctx, t: T, name):
         return None
     if t.kind == "rec":
         ci = w.classes[t.args[0]]
-        return Rec(ci, {f: fresh(ctx, ft, f"{name}.{f}") for f, ft in ci.fields.items()})
+        ov = t.kw.get("override", {})
+        return Rec(ci, {f: fresh(ctx, ov.get(f, ft), f"{name}.{f}") for f, ft in ci.fields.items()})
     if t.kind == "tuple":
         return tuple(fresh(ctx, a, f"{name}.{i}") for i, a in enumerate(t.args))
     if t.kind == "list":
